@@ -8,6 +8,7 @@ import itertools
 from checks import c17_hist as H
 from mc import domains as D
 from mc.alias import Keeper
+from mc.alias import receive_buffer, reuse_buffer
 from mc.rec import Rec
 from ref import uslp as R
 from units import uslp as UU
@@ -195,7 +196,10 @@ def _check_header(rec, r, case, nontrivial, keep):
         bad("PrimaryHeader.len", (hd.len(), hd.truncated()), (len(ref), False))
     for name, raw in (("exact", ref), ("followed-by-data", ref + SUFFIX)):
         try:
-            u = h.PrimaryHeader.unpack(raw)
+            rb = receive_buffer(raw) if name != "exact" else raw
+            u = h.PrimaryHeader.unpack(rb)
+            if name != "exact":
+                reuse_buffer(rb)
         except Exception as e:
             return bad(f"PrimaryHeader.unpack/exception/{type(e).__name__}", {"input": name, "error": repr(e)}, exp)
         obs = UU.observe_primary_header(u)
@@ -404,7 +408,9 @@ def _check_frame(rec, r, fk, case, nontrivial, keep):
     # matching managed parameters
     try:
         ftype, props = UU.matching_properties(r, fk, n)
-        u = f.TransferFrame.unpack(raw_frame=ref, frame_type=ftype, frame_properties=props)
+        rb = receive_buffer(ref)
+        u = f.TransferFrame.unpack(raw_frame=rb, frame_type=ftype, frame_properties=props)
+        reuse_buffer(rb)  # the caller re-uses its receive buffer: the decoded frame must not change
     except Exception as e:
         return bad("TransferFrame.unpack/exception/" + type(e).__name__, repr(e), exp)
     obs = UU.observe_frame(u)
